@@ -1182,8 +1182,46 @@ type fixture struct {
 	svc     *websvc.Service
 	ec      *errColl
 
-	mu   sync.Mutex
-	recs []backendRec
+	mu        sync.Mutex
+	recs      []backendRec
+	accounted int // records up to here are claimed by client requests or swept
+	unsol     []unsolicited
+	refreshes int
+	closed    bool
+}
+
+// unsolicited is a request that the back-end received while no client request
+// was outstanding on the service.
+type unsolicited struct {
+	Phase string     `json:"phase"`
+	Rec   backendRec `json:"backend_received"`
+}
+
+// sweep accounts every back-end record that no client request has claimed to
+// the given phase of the service's life.  Client requests claim their records
+// in runCase (one client request at a time per fixture).
+func (f *fixture) sweep(phase string) {
+	f.mu.Lock()
+	defer f.mu.Unlock()
+	for _, rec := range f.recs[f.accounted:] {
+		f.unsol = append(f.unsol, unsolicited{Phase: phase, Rec: rec})
+	}
+	f.accounted = len(f.recs)
+}
+
+func (f *fixture) claim() { f.mu.Lock(); f.accounted = len(f.recs); f.mu.Unlock() }
+
+// refresh calls the service's Refresh entry point (internal/cmd does so at
+// start-up, periodically and through the debug API) while the back-end records.
+func (f *fixture) refresh(phase string) error {
+	ctx, cancel := context.WithTimeout(context.Background(), 30*time.Second)
+	defer cancel()
+	err := f.svc.Refresh(ctx)
+	f.mu.Lock()
+	f.refreshes++
+	f.mu.Unlock()
+	f.sweep(phase)
+	return err
 }
 
 func (f *fixture) taken() int { f.mu.Lock(); defer f.mu.Unlock(); return len(f.recs) }
@@ -1304,11 +1342,11 @@ func newFixture(salt int, sp spec) (*fixture, error) {
 	if f.svc == nil {
 		return nil, fmt.Errorf("websvc.New returned nil")
 	}
-	ctx := context.Background()
-	if err = f.svc.Refresh(ctx); err != nil {
+	f.sweep("websvc.New")
+	if err = f.refresh("Service.Refresh (initial, before Start)"); err != nil {
 		return nil, err
 	}
-	if err = f.svc.Start(ctx); err != nil {
+	if err = f.svc.Start(context.Background()); err != nil {
 		return nil, err
 	}
 	deadline := time.Now().Add(20 * time.Second)
@@ -1316,6 +1354,7 @@ func newFixture(salt int, sp spec) (*fixture, error) {
 		c, derr := net.DialTimeout("tcp", f.dialAddr(sp.ClientIPs[0]), time.Second)
 		if derr == nil {
 			_ = c.Close()
+			f.sweep("Service.Start")
 			return f, nil
 		}
 		if time.Now().After(deadline) {
@@ -1326,9 +1365,14 @@ func newFixture(salt int, sp spec) (*fixture, error) {
 }
 
 func (f *fixture) close() {
+	if f.closed {
+		return
+	}
+	f.closed = true
 	ctx, cancel := context.WithTimeout(context.Background(), 10*time.Second)
 	defer cancel()
 	_ = f.svc.Shutdown(ctx)
+	f.sweep("Service.Shutdown")
 	_ = f.backend.Close()
 }
 
@@ -1358,6 +1402,8 @@ type outcome struct {
 
 func runCase(f *fixture, fi int, c caseT) outcome {
 	o := outcome{C: c, Fixture: fi, Base: f.base, Spec: f.spec}
+	f.sweep("idle (no client request outstanding)")
+	defer f.claim()
 	n0, e0 := f.taken(), f.ec.count()
 	la := &net.TCPAddr{IP: net.ParseIP(c.LocalIP)}
 	if a, perr := netip.ParseAddr(c.LocalIP); perr == nil {
@@ -1679,6 +1725,11 @@ func (j *judge) evaluate(o *outcome) {
 		}
 		if len(recs) > 1 {
 			r.Bucket("requests_forwarded_more_than_once", 1)
+			if len(o.ProxyErr) == 0 && len(o.Late) == 0 {
+				r.Violation("backend:client-request-forwarded-more-than-once",
+					"the back-end received more than one request while a single client request was outstanding",
+					j.witness(o, k, v, map[string]any{"backend_requests": len(recs)}))
+			}
 		}
 
 		// (2) invariants of every request the back-end received
@@ -1947,6 +1998,7 @@ func TestCheck(t *testing.T) {
 		"distinct = (method, target form, sequence of segment classes, query?, forged header set, Connection kind, body kind, protocol); " +
 		"non-trivial = first path segment is linkip/ddns under some reading of the path, or the back-end was contacted")
 	r.Assume("the back-end is reached over plain HTTP on loopback and answers every request with 200")
+	r.Assume("client requests are sent one at a time per service instance; Service.Refresh is called between two client requests (every 250 per instance, 3 times in a row at the end, once before Start), so every back-end record is attributable to either one client request or a phase of the service's life (New, Refresh, Start, idle, Shutdown)")
 	r.Assume("header names are compared case-insensitively (the back-end sees Go's canonical form)")
 	r.Assume("'must be proxied' is asserted only for clean documented shapes; targets whose raw / percent-decoded / normalised readings disagree are 'ambiguous' for the contacted<=>shape rule but still subject to every invariant on what the back-end receives")
 	r.Assume("only CF-Connecting-IP, Forwarded, True-Client-IP, X-Real-IP, X-Forwarded-For/-Host/-Proto are treated as forbidden forwarding headers; X-Forwarded-Port, X-Client-IP, X-Cluster-Client-IP, Via, X-Original-Forwarded-For are generated and only counted")
@@ -2000,6 +2052,7 @@ func TestCheck(t *testing.T) {
 	// workers, strictly one case at a time per fixture) and judged in index
 	// order, so that the first witness of a class does not depend on timing.
 	batch := 3000 * workers
+	const refreshEvery = 250 // client requests per fixture between two Refresh calls
 	for lo := 0; lo < n; lo += batch {
 		hi := min(lo+batch, n)
 		outs := make([]outcome, hi-lo)
@@ -2018,6 +2071,12 @@ func TestCheck(t *testing.T) {
 						c = genCase(r, idx, "127.0.0.1:8080", specs[w].ClientIPs)
 					}
 					outs[idx-lo] = runCase(fx[w], w, c)
+					if (idx/workers)%refreshEvery == refreshEvery-1 {
+						// the periodic / debug-API refresh, between two client requests
+						if err := fx[w].refresh("Service.Refresh (while serving)"); err != nil {
+							r.Bucket("service_refresh_errors", 1)
+						}
+					}
 				}
 			}(w)
 		}
@@ -2025,6 +2084,41 @@ func TestCheck(t *testing.T) {
 		for i := range outs {
 			j.evaluate(&outs[i])
 		}
+	}
+	// The other entry points of the service, while the back-end still records:
+	// Refresh several times in a row, then Shutdown.  Every request the back-end
+	// ever received must have been claimed by exactly one client request.
+	for i, f := range fx {
+		for k := 0; k < 3; k++ {
+			if err := f.refresh("Service.Refresh (repeated, after the last client request)"); err != nil {
+				r.Bucket("service_refresh_errors", 1)
+			}
+		}
+		f.close()
+		f.mu.Lock()
+		total, unsol, refreshes := len(f.recs), append([]unsolicited(nil), f.unsol...), f.refreshes
+		f.mu.Unlock()
+		r.Bucket("backend_requests_recorded_in_total", int64(total))
+		r.Bucket("service_refresh_calls_while_recording", int64(refreshes))
+		r.Bucket("service_lifecycles_observed_new_refresh_start_shutdown", 1)
+		for _, u := range unsol {
+			r.Bucket("backend_requests_unsolicited", 1)
+			_, bp, _ := splitTarget(u.Rec.RequestURI)
+			phaseKey := strings.ToLower(strings.Fields(u.Phase)[0])
+			r.Violation("backend:unsolicited-request:"+phaseKey,
+				"the back-end received a request that corresponds to no client request (sent by the service itself during "+u.Phase+")",
+				map[string]any{
+					"service_config": specs[i], "phase": u.Phase, "backend_received": u.Rec,
+					"documented_shape":     documentedShape(u.Rec.Method, segments(strings.TrimPrefix(bp, specs[i].Base)), true),
+					"has_client_ip_header": len(u.Rec.Header.Values(clientIPHeader)) > 0,
+					"refresh_calls_so_far": refreshes,
+				})
+		}
+	}
+	if got, want := r.BucketGet("backend_requests_recorded_in_total"), r.BucketGet("backend_requests")+r.BucketGet("backend_requests_unsolicited"); got != want {
+		r.Violation("backend:recorded-requests-not-accounted-for",
+			"the number of requests the back-end recorded differs from those claimed by client requests plus the unsolicited ones",
+			map[string]any{"recorded": got, "claimed_plus_unsolicited": want})
 	}
 	r.Bucket("distinct_peer_addresses_forwarded", int64(len(j.peersFwd)))
 	nerr := 0
@@ -2050,6 +2144,9 @@ func TestCheck(t *testing.T) {
 	r.Require("multi_encoded_requests_sent", int64(n/40))
 	r.Require("multi_encoded_requests_forwarded", int64(n/100))
 	r.Require("distinct_peer_addresses_forwarded", 2)
+	// the service's other entry points were exercised while recording
+	r.Require("service_refresh_calls_while_recording", int64(4*workers+n/(2*refreshEvery)))
+	r.Require("service_lifecycles_observed_new_refresh_start_shutdown", int64(workers))
 	// routing hints (CORS preflight headers, method-override headers and
 	// parameters, Upgrade, Expect, Content-Type, X-Original-URL/-Method)
 	r.Require("routing_hint_requests_sent", int64(n/10))
